@@ -254,7 +254,11 @@ func (c *Ctx) startupReconciliation(specs ...reconSpec) {
 		}
 		c.verdict(okLast && len(reads) >= 1, c.nm(fn)+" | the index tip is compared with the file's last record", c.P.Pos(fn.Pos()), "readHeader(height computed from the file size) feeds the comparison", "the record compared with the index tip is not read at the height computed from the file's size: when the file is ahead of the index the surplus records are not noticed", c.ats(reads)...)
 		geq := boolIs("tipHash.IsEqual(latest file record)", find(fn, callTo(isEq)), 0, true)
+		// (a constructor that refuses to open a store it cannot reconcile
+		// hands nothing out)
+		c.refusalOK = true
 		c.mustFollow(fn, "index tip != last file record", c.failEdges(geq), callTo(trunc), "truncateHeaders(fileHeight-tipHeight)", nil, 1)
+		c.refusalOK = false
 		c.guarded(fn, errNil("truncateHeaders", find(fn, callTo(trunc)), 0), 1, "return store after reconciliation", nil, 0, gDominate)
 	}
 }
